@@ -13,7 +13,7 @@ RULE = (
     "(graph signature, op-kind sequence) pairs whose history contains at least one derived read after an assignment"
 )
 REQUIRED = {"reads_derived": 2000, "reverts_partial": 50, "reverts_full": 100, "clones": 100, "quiescent_checks": 1000,
-            "model_histories": 10, "reads_unset_raised": 20}
+            "model_histories": 10, "reads_unset_raised": 20, "many_path_graphs": 50}
 ASSUMPTIONS = [
     "the documented precondition of a partial revert is respected by the generator (only individual-wise nodes are read between an "
     "assignment and a per-individual revert); individual-wise = no ancestor aggregates over individuals (toy: by construction; "
@@ -53,7 +53,17 @@ def run_shard(spec, ctx):
         rng = ctx.rng(kind, spec["k"], i)
         case = {"index": i, "kind": kind}
         if kind == "toy":
-            dag, info = sh.make_toy(rng)
+            from vf.checks.c15 import ContractBroken
+
+            try:
+                dag, info = sh.make_layered(rng) if i % 8 == 7 else sh.make_toy(rng)
+            except ContractBroken as e:
+                # the always-on C15 contract: the invalidation lists State relies on are not the exact descendants => stale reads
+                ctx.violation("state/invalidation-lists-not-exact-descendants", f"the dependency graph handed to State misreports descendants/ancestors: {str(e)[:200]}",
+                              dict(case, graph="layered" if i % 8 == 7 else "toy"))
+                continue
+            if i % 8 == 7:
+                ctx.count("many_path_graphs")
             meta = info["meta"]
             settable = {n: dict(shape=m["shape"], axis=m["axis"]) for n, m in meta.items() if m["indep"] and m["kind"] != "hyper"}
             readable = list(meta)
